@@ -97,15 +97,28 @@ def _all_names(fn: ast.AST) -> set[str]:
     return {n.id for n in ast.walk(fn) if isinstance(n, ast.Name)} | _local_names(fn)
 
 
-def inlinable(h: ast.AST) -> bool:
+def is_generator(h: ast.AST) -> bool:
+    return any(isinstance(n, (ast.Yield, ast.YieldFrom)) for n in walk_no_nested(h))
+
+
+def inlinable(h: ast.AST, allow_generator: bool = False) -> bool:
     if not isinstance(h, ast.FunctionDef):
         return False
+    if is_generator(h):
+        # only as the eager list it yields (see _expand), and only in the plain statement forms `yield e` / `yield from it`
+        if not allow_generator:
+            return False
+        for n in walk_no_nested(h):
+            if isinstance(n, (ast.Yield, ast.YieldFrom)) and not isinstance(getattr(n, "_parent", None), ast.Expr):
+                return False
+            if isinstance(n, ast.Return) and n.value is not None:
+                return False
     a = h.args
     if a.vararg or a.kwarg or a.posonlyargs:
         return False
     if any(not (isinstance(d, ast.Name) and d.id in ("staticmethod", "classmethod")) for d in h.decorator_list):
         return False  # a decorator (cache, property, click command ...) changes what a call does: never read through it
-    if any(isinstance(n, (ast.Yield, ast.YieldFrom, ast.Await, ast.Global, ast.Nonlocal)) for n in walk_no_nested(h)):
+    if any(isinstance(n, (ast.Await, ast.Global, ast.Nonlocal)) for n in walk_no_nested(h)):
         return False
     if any(isinstance(n, (ast.FunctionDef, ast.AsyncFunctionDef, ast.ClassDef)) for n in ast.walk(h) if n is not h):
         return False  # closures over helper locals: renaming would have to follow them
@@ -325,9 +338,37 @@ def _expand(fi: FuncInfo, caller_names: set[str], st: ast.stmt, select: Callable
     else:
         return None
     h = _helper_of(fi, call)
-    if h is None or not inlinable(h.node) or not select(h, call, st):
+    eager = getattr(st, "_eager_ok", False)
+    if h is None or not inlinable(h.node, allow_generator=eager) or not select(h, call, st):
+        return None
+    gen = is_generator(h.node)
+    if gen and not (eager and len(targets) == 1 and isinstance(targets[0], ast.Name)):
         return None
     hn: ast.FunctionDef = clone(h.node)  # type: ignore[assignment]
+    if gen:
+        # a generator that is consumed at once (list(h(..)), x.extend(h(..)), sep.join(h(..)) - the caller marked the hoisted
+        # temporary) is read as the list it yields: `yield e` -> acc.append(e), `yield from it` -> acc.extend(it), `return` -> done
+        acc = targets[0].id
+
+        class Y(ast.NodeTransformer):
+            def visit_Expr(self, n: ast.Expr):  # noqa: N802
+                v = n.value
+                if isinstance(v, ast.Yield):
+                    e = ast.Expr(value=ast.Call(func=ast.Attribute(value=ast.Name(id=acc, ctx=ast.Load()), attr="append", ctx=ast.Load()), args=[v.value if v.value is not None else ast.Constant(value=None)], keywords=[]))
+                    return ast.fix_missing_locations(ast.copy_location(e, n))
+                if isinstance(v, ast.YieldFrom):
+                    e = ast.Expr(value=ast.Call(func=ast.Attribute(value=ast.Name(id=acc, ctx=ast.Load()), attr="extend", ctx=ast.Load()), args=[v.value], keywords=[]))
+                    return ast.fix_missing_locations(ast.copy_location(e, n))
+                return n
+
+        hn = Y().visit(hn)
+        init = ast.Assign(targets=[ast.Name(id=acc, ctx=ast.Store())], value=ast.List(elts=[], ctx=ast.Load()))
+        ast.fix_missing_locations(ast.copy_location(init, st))
+        body0 = [b for b in hn.body]
+        doc_first = body0 and isinstance(body0[0], ast.Expr) and isinstance(body0[0].value, ast.Constant) and isinstance(body0[0].value.value, str)
+        hn.body = (body0[:1] if doc_first else []) + [init] + (body0[1:] if doc_first else body0)
+        targets = []  # (the accumulator IS the target: former returns assign nothing)
+        st = ast.copy_location(ast.Expr(value=call), st)
     is_method = h.cls is not None and not any(isinstance(d, ast.Name) and d.id == "staticmethod" for d in hn.decorator_list)
     params = [a.arg for a in hn.args.args]
     if is_method and params:
@@ -352,6 +393,8 @@ def _expand(fi: FuncInfo, caller_names: set[str], st: ast.stmt, select: Callable
             bound[p] = defaults[p]
     rebinds = {n.id for n in walk_no_nested(hn) if isinstance(n, ast.Name) and isinstance(n.ctx, (ast.Store, ast.Del))}
     helper_locals = _local_names(hn) - set(params) - {"self", "cls"}
+    if gen:
+        helper_locals.discard(acc)  # the caller's temporary
     rename: dict[str, str] = {}
     # a helper local that is bound exactly once, to the same expression the caller binds the same name to (once, earlier, from
     # names the caller binds once), IS the caller's local: keep the name and drop the helper's duplicate binding
@@ -581,11 +624,32 @@ class _ExprInliner(ast.NodeTransformer):
 
     visit_ListComp = visit_SetComp = visit_DictComp = visit_GeneratorExp = visit_IfExp = visit_BoolOp = _cond  # noqa: N815
 
+    _CONSUMERS = {"list", "tuple", "sorted", "set", "frozenset", "sum", "dict"}
+
     def visit_Call(self, n: ast.Call):  # noqa: N802
         self.generic_visit(n)
+        # a generator helper consumed at once: hoist it as the eager list it yields
+        consumer = (isinstance(n.func, ast.Name) and n.func.id in self._CONSUMERS) or (isinstance(n.func, ast.Attribute) and n.func.attr in ("join", "extend"))
+        if consumer and n.args and isinstance(n.args[0], ast.Call) and not self.conditional and self.stmt is not None and isinstance(self.stmt, (ast.Expr, ast.Assign, ast.AnnAssign, ast.AugAssign, ast.Return)):
+            g = _helper_of(self.fi, n.args[0])
+            if g is not None and is_generator(g.node) and inlinable(g.node, allow_generator=True) and self.sel(g, n.args[0], self.stmt):
+                tmp = f"_{g.name.strip('_')}_items"
+                while tmp in self.names:
+                    tmp += "_"
+                self.names.add(tmp)
+                asg = ast.Assign(targets=[ast.Name(id=tmp, ctx=ast.Store())], value=n.args[0])
+                ast.copy_location(asg, self.stmt)
+                ast.fix_missing_locations(asg)
+                asg._eager_ok = True  # type: ignore[attr-defined]
+                self.hoisted.append(asg)
+                self.changed = True
+                n.args[0] = ast.copy_location(ast.Name(id=tmp, ctx=ast.Load()), n.args[0])
+                return n
         h = _helper_of(self.fi, n)
         if h is None or not self.sel(h, n, self.stmt):
             return n
+        if is_generator(h.node):
+            return n  # only where it is consumed at once (above)
         expr = _expression_helper(h)
         bound = _bind_args(h, n)
         if bound is None:
@@ -616,6 +680,75 @@ class _ExprInliner(ast.NodeTransformer):
         self.hoisted.append(asg)
         self.changed = True
         return ast.copy_location(ast.Name(id=tmp, ctx=ast.Load()), n)
+
+
+def record_fields(cls: ast.ClassDef) -> list[str] | None:
+    """field names, in order, of a NamedTuple / dataclass class written with annotated fields; None for any other class"""
+    is_nt = any(ast.unparse(b).split(".")[-1] == "NamedTuple" for b in cls.bases)
+    is_dc = any("dataclass" in ast.unparse(d) for d in cls.decorator_list)
+    if not (is_nt or is_dc):
+        return None
+    return [st.target.id for st in cls.body if isinstance(st, ast.AnnAssign) and isinstance(st.target, ast.Name)]
+
+
+def scalarise_records(fn: ast.AST, records: dict[str, list[str]]) -> int:
+    """scalar replacement of a local record: `v = R(a=e1, b=e2)` (R one of `records`, v bound once and only ever read as
+    `v.a` / `v.b`) becomes `v__a = e1; v__b = e2` and the reads become those names. In place; returns how many were replaced."""
+    done = 0
+    names = _all_names(fn)
+    for asg in [n for n in walk_no_nested(fn) if isinstance(n, (ast.Assign, ast.AnnAssign))]:
+        tg = asg.targets[0] if isinstance(asg, ast.Assign) and len(asg.targets) == 1 else (asg.target if isinstance(asg, ast.AnnAssign) else None)
+        call = asg.value
+        if not (isinstance(tg, ast.Name) and isinstance(call, ast.Call) and isinstance(call.func, ast.Name) and call.func.id in records):
+            continue
+        fields = records[call.func.id]
+        if any(isinstance(a, ast.Starred) for a in call.args) or any(k.arg is None for k in call.keywords) or len(call.args) > len(fields):
+            continue
+        vals: dict[str, ast.AST] = dict(zip(fields, call.args))
+        vals.update({k.arg: k.value for k in call.keywords})  # type: ignore[misc]
+        v = tg.id
+        stores = [n for n in ast.walk(fn) if isinstance(n, ast.Name) and n.id == v and isinstance(n.ctx, (ast.Store, ast.Del))]
+        loads = [n for n in ast.walk(fn) if isinstance(n, ast.Name) and n.id == v and isinstance(n.ctx, ast.Load)]
+        if len(stores) != 1:
+            continue
+        if not all(isinstance(getattr(n, "_parent", None), ast.Attribute) and getattr(n, "_parent").value is n and isinstance(getattr(n, "_parent").ctx, ast.Load) and getattr(n, "_parent").attr in vals for n in loads):
+            continue
+        blk = None
+        par = getattr(asg, "_parent", None)
+        for f in ("body", "orelse", "finalbody"):
+            lst = getattr(par, f, None)
+            if isinstance(lst, list) and asg in lst:
+                blk = lst
+        if blk is None:
+            continue
+        new_names = {}
+        repl: list[ast.stmt] = []
+        for f_, e in vals.items():
+            nm = f"{v}__{f_}"
+            while nm in names:
+                nm += "_"
+            names.add(nm)
+            new_names[f_] = nm
+            a = ast.Assign(targets=[ast.Name(id=nm, ctx=ast.Store())], value=e)
+            ast.copy_location(a, asg)
+            ast.fix_missing_locations(a)
+            a._parent = par  # type: ignore[attr-defined]
+            repl.append(a)
+        i = blk.index(asg)
+        blk[i:i + 1] = repl
+        for n in loads:
+            att = n._parent  # type: ignore[attr-defined]
+            new = ast.Name(id=new_names[att.attr], ctx=ast.Load())
+            ast.copy_location(new, att)
+            gp = getattr(att, "_parent", None)
+            new._parent = gp  # type: ignore[attr-defined]
+            for fld, val in ast.iter_fields(gp):
+                if val is att:
+                    setattr(gp, fld, new)
+                elif isinstance(val, list) and att in val:
+                    val[val.index(att)] = new
+        done += 1
+    return done
 
 
 def inline_helpers(fi: FuncInfo, select: Callable[[FuncInfo, ast.Call, ast.stmt], bool] | None = None, rounds: int = 3) -> tuple[FuncInfo, list[str]]:
